@@ -369,8 +369,12 @@ func (s *stream) sendEvents() {
 			return
 		}
 		for _, v := range events {
-			err := s.client.Send(v)
+			err = s.client.Send(v)
 			if err != nil {
+				// Send reports a broken stream as io.EOF, which setError treats as a normal end of the stream.
+				if err == io.EOF {
+					err = errors.New("stream broken while sending an event")
+				}
 				return
 			}
 			if ce := log.Check(zapcore.DebugLevel, "event sent"); ce != nil {
